@@ -21,4 +21,15 @@ class Lazy(dict):
 
 
 if __name__ == "__main__":
+    if len(sys.argv) > 1 and sys.argv[1] == "all":
+        # convenience: every claimed property, one after the other; exit 1 if any reports a violation
+        import json
+        import subprocess
+        here = os.path.dirname(os.path.abspath(__file__))
+        ids = [c["property_id"] for c in json.load(open(os.path.join(here, "..", "MANIFEST.json")))["checks"]]
+        worst = 0
+        for pid in ids:
+            rc = subprocess.call([sys.executable, os.path.abspath(__file__), pid] + sys.argv[2:])
+            worst = max(worst, rc)
+        sys.exit(worst)
     sys.exit(framework.main(Lazy()))
